@@ -414,7 +414,9 @@ nodesLoop:
 			outOfPlace := true
 			if len(tc.ancestors) > 0 {
 				parent := tc.ancestors[len(tc.ancestors)-1]
-				if cas, ok := parent.(*ast.Case); ok {
+				// The fallthrough must be a statement of the body of the
+				// case, not of a block or an 'if' nested in the body.
+				if cas, ok := parent.(*ast.Case); ok && len(nodes) == len(cas.Body) && &nodes[0] == &cas.Body[0] {
 					nn := len(nodes)
 				CASE:
 					switch i {
